@@ -418,6 +418,13 @@ Definition quiet_at (k : kind) (s : qstate) (l : qlabel) : bool :=
   | _ => true
   end.
 
+(* the timer of a receive of kind k does not fire (the reply comes within the deadline) *)
+Definition no_timeout_at (k : kind) (s : qstate) (l : qlabel) : bool :=
+  match l with
+  | LQTimeout g => negb (outstanding k (qget s g))
+  | _ => true
+  end.
+
 Definition is_plain_key (x : seq) : bool := match x with SKey _ => true | _ => false end.
 Definition is_r (x : seq) : bool := match x with SR _ _ => true | SReply k _ => flagged k | _ => false end.
 
@@ -680,10 +687,10 @@ Definition c10_query_violations (l : list query_case) : list Z := bad_indices qu
 Definition c10_query_violations_all (l : list query_case) : list Z := bad_indices query_violation_all l.
 Definition c10_query_known (l : list query_case) : list Z := bad_indices query_known l.
 
-(* every scenario of at most n actions over the alphabet: each of the five query kinds issued with an
-   early / a prompt / no answer, a reply of each kind at rest, the three sorts of key; values are made
-   distinct by the position *)
-Definition scn_kinds : list kind := [KFg; KBg; KCol; KCpr; KClip].
+(* every scenario of at most n actions over the alphabet: each of the six query kinds (the size request of
+   reportWinsize included) issued with an early / a prompt / no answer, a reply of each kind at rest, the
+   three sorts of key; values are made distinct by the position *)
+Definition scn_kinds : list kind := [KFg; KBg; KCol; KCpr; KClip; KSize].
 Definition act_alphabet (i : Z) : list sact :=
   flat_map (fun k => [AQuery k 0 (300 + i); AQuery k 1 (300 + i); AQuery k 2 0; AReply k (300 + i)]) scn_kinds
   ++ [AKeyR true 258; AKeyR false 0; AKey 3].
